@@ -27,7 +27,8 @@ ASSUMPTIONS = ["the AST-driven emission order of printer.go / decl.go / expr.go 
 #   cfg_asis      the pinned tree
 #   cfg_eof_only  after fixes/C30-final-newline.diff
 #   cfg_fixed     after fixes/C30-roundtrip-verbatim.diff
-CFG = os.environ.get("VERIF_C30_MODEL", "cfg_asis")
+CFG = os.environ.get("VERIF_C30_MODEL", "cfg_eof_only")
+EOF_REPAIRED = CFG in ("cfg_eof_only", "cfg_fixed")
 
 CLS = ["CSpace", "CNewline", "CLine", "CBlock", "CUnrec", "CSemi", "CComma", "CAssign", "COther"]
 BRK = {9: "BParens", 10: "BBrackets", 11: "BBraces", 12: "BAngles", 13: "BOther"}
@@ -162,7 +163,18 @@ def classify(src, o, what):
     extra = {}
     F = set(prnlib.analyse(o["tree"], o["att"], o["det"], src, extra))
     if what == "whole":
-        F |= prnlib.eof_features(src, o["tree"])
+        rt = bytes.fromhex(o["rt"])
+        lse = last_solid_end(o["tree"])
+        if EOF_REPAIRED:
+            # The tree prints the end of the file verbatim: the text after the last token must be the
+            # end of the output, whatever else is wrong; the EOF classes explain nothing any more.
+            if rt[:lse] == src[:lse]:
+                # the output differs from the source ONLY at the end of the file
+                return prnlib.eof_features(src, o["tree"]) or {"roundtrip-mismatch-at-end-of-file:unexplained"}
+            if not rt.endswith(src[lse:]):
+                F |= prnlib.eof_features(src, o["tree"]) or {"roundtrip-mismatch-at-end-of-file:unexplained"}
+        else:
+            F |= prnlib.eof_features(src, o["tree"])
         texts = {}
 
         def collect(ts):
@@ -179,6 +191,8 @@ def classify(src, o, what):
         else:
             F |= token_accounting(src, bytes.fromhex(o["rt"]), o.get("src_toks"), extra.get("dict_seps", []))
     else:
+        if extra.get("stray_literals"):
+            F.add("roundtrip-drops-tokens-absent-from-ast")
         cls = {}
 
         def walk(ts):
@@ -203,11 +217,11 @@ def run(ctx):
         cases.append(("hand", s.encode()))
     files = sorted(glob.glob(os.path.join(REPO, "internal/testdata/**/*.proto"), recursive=True)
                    + glob.glob(os.path.join(REPO, "experimental/ast/printer/testdata/**/*.proto"), recursive=True))
-    files = files if ctx.tier == "thorough" else [f for f in files if os.path.getsize(f) < 8000]
+    files = files if ctx.tier == "thorough" else [f for f in files if os.path.getsize(f) < 5000]
     for f in files:
         cases.append(("corpus:" + os.path.relpath(f, REPO), open(f, "rb").read()))
-    plan = [("plain", ctx.budget(100, 1500)), ("plain-nocomment", ctx.budget(30, 500)), ("shuffled-plain", ctx.budget(30, 500)),
-            ("flat-adversarial", ctx.budget(100, 2000)), ("adversarial", ctx.budget(200, 6000))]
+    plan = [("plain", ctx.budget(100, 1000)), ("plain-nocomment", ctx.budget(30, 300)), ("shuffled-plain", ctx.budget(30, 300)),
+            ("flat-adversarial", ctx.budget(100, 1500)), ("adversarial", ctx.budget(200, 4000))]
     for strat, n in plan:
         for _ in range(n):
             cases.append((strat, prnlib.gen_source(rng, strat)[0].encode()))
@@ -235,7 +249,10 @@ def run(ctx):
             continue
         # correspondence 2: PrintFile / Print outputs of the model; exact where no AST-level emission is involved
         if strat == "flat-adversarial" or CFG == "cfg_fixed":
-            if len(src) < 6000:
+            ex = {}
+            prnlib.analyse(o["tree"], o["att"], o["det"], src, ex)
+            # the model prints every token of the stream; not a case when the parser left tokens out of the AST
+            if len(src) < 6000 and not ex.get("stray_literals") and len(prn_terms) < ctx.budget(160, 10**6):
                 prn_terms.append(print_case(o))
                 prn_meta.append((rep, o))
         # direct oracle: the property on the implementation
